@@ -24,6 +24,8 @@ type TokAns struct {
 	K    string `json:"k"`    // ok | no | err
 	User string `json:"user"` // hex, for ok
 	How  string `json:"how"`  // for err: "status" (status.error set) | "call" (Create fails)
+	// the first Retries attempts of a review fail with a retryable error (500 InternalError) before this answer is given
+	Retries int `json:"retries"`
 }
 
 type TokRule struct {
@@ -38,6 +40,7 @@ type SarAns struct {
 	Allowed bool   `json:"allowed"`
 	Denied  bool   `json:"denied"`
 	Reason  string `json:"reason"`
+	Retries int    `json:"retries"` // as TokAns.Retries
 }
 
 type SarRule struct {
@@ -96,7 +99,7 @@ type Ev struct {
 }
 
 type Macro struct {
-	Op    string  `json:"op"` // ev | tok | sar
+	Op    string  `json:"op"` // ev | tok | sar | pipe (the whole chain: bind, authenticate, impersonation check if attrs >= 0, dispatch)
 	Ev    *Ev     `json:"ev,omitempty"`
 	Host  string  `json:"host"`
 	Tok   string  `json:"tok"`
@@ -106,6 +109,8 @@ type Macro struct {
 	Mid1  []Macro `json:"mid1,omitempty"` // tok: run when the review closure resolves the host again
 	Mid2  []Macro `json:"mid2,omitempty"` // tok: run while the TokenReview is in flight
 	Mid   []Macro `json:"mid,omitempty"`  // sar: run while the SubjectAccessReview is in flight
+	MidA  []Macro `json:"midA,omitempty"` // pipe: run between authentication and the impersonation check
+	MidD  []Macro `json:"midD,omitempty"` // pipe: run between the last check and the dispatcher
 }
 
 type InstDef struct {
@@ -158,6 +163,9 @@ type ImplOut struct {
 	Reviewed bool        `json:"reviewed"`
 	Hits     []Hit       `json:"hits"`
 	Problem  string      `json:"problem,omitempty"` // harness-level anomaly (panic, unknown spec, …)
+	Pipe     int         `json:"pipe,omitempty"`    // > 0: stage of that whole-chain request
+	Proxied  int         `json:"proxied"`           // disp: instance whose endpoint received the proxied request (-1: none)
+	Code     int         `json:"code,omitempty"`    // disp: HTTP status the client got
 }
 
 type ModelOut struct {
@@ -165,6 +173,7 @@ type ModelOut struct {
 	Rid   int             `json:"rid"`
 	Inst  int             `json:"inst"`
 	Upstream int          `json:"upstream"`
+	Proxied  int          `json:"proxied"`
 	Res   json.RawMessage `json:"res"`
 	Time  int             `json:"time"`
 	Src   string          `json:"src"`
